@@ -3,6 +3,8 @@ from . import core
 
 HARNESSES = {
     'blk': dict(sources=['blk.c'], flags=core.SAN, replay=False),
+    'dec': dict(sources=['dec.c'], flags=core.SAN, replay=False),
+    'dec0': dict(sources=['dec.c'], flags=core.SAN + ['-DLZ4_FAST_DEC_LOOP=0'], replay=False),
 }
 
 BLOCK_DECODE_KINDS = ['spec_decode_fails', 'spec_decode_mismatch', 'real_decoder_mismatch_*', 'crosscheck', 'sanitizer_abort', 'harness_crash', 'timeout', 'negative_return']
@@ -14,5 +16,28 @@ PROPS = {
     steps=[dict(harness='blk', mode='c01')],
     kinds=BLOCK_DECODE_KINDS + ['full_reset_depends_on_state_garbage', 'bound_should_succeed'],
     note='HC match finders are an oracle with a per-answer contract check; byPtr (32-bit) table mode not modelled',
+ ),
+ 'C06': dict(
+    module='LZ4V.Properties.C06',
+    theorems=['LZ4V.C06.decode_is_parse_then_exec', 'LZ4V.C06.serialize_decodes_to_exec'],
+    steps=[dict(harness='blk', mode='c06')],
+    kinds=['spec_decode_fails', 'spec_decode_mismatch', 'end_conditions', 'offset_range', 'crosscheck', 'sanitizer_abort', 'harness_crash', 'timeout'],
+    note='theorems are about the independent decoder/parser; that every real compressor output passes it is checked per output (verified validator), not proved on a compressor model',
+ ),
+ 'C09': dict(
+    module='LZ4V.Properties.C09',
+    theorems=['LZ4V.C09.compressBound_covers_every_parse', 'LZ4V.C09.compressBound_bad_size', 'LZ4V.C09.limited_success_decodes'],
+    steps=[dict(harness='blk', mode='c09')],
+    kinds=['bound_should_succeed', 'ret_gt_cap', 'spec_decode_fails', 'spec_decode_mismatch', 'real_decoder_mismatch_*', 'bad_size_nonzero', 'compressBound_bad_size_nonzero',
+           'negative_return', 'sanitizer_abort', 'harness_crash', 'timeout'],
+    note='bound theorem is over the regenerated LZ4_compressBound; memory footprint of the real compressors is observed with ASan on exact-size buffers for every capacity 0..bound+1',
+ ),
+ 'C17': dict(
+    module='LZ4V.Properties.C17',
+    theorems=['LZ4V.C17.adaptLastRun_fits', 'LZ4V.C17.adaptLastRun_fills', 'LZ4V.C17.reducedMatchCode_fits', 'LZ4V.C17.next_match_reserve'],
+    steps=[dict(harness='blk', mode='c17')],
+    kinds=['destsize_zero', 'destsize_not_full_at_bound', 'ret_gt_cap', 'consumed_out_of_range', 'spec_decode_fails', 'spec_decode_mismatch', 'end_conditions',
+           'real_decoder_mismatch_*', 'negative_return', 'sanitizer_abort', 'harness_crash', 'timeout'],
+    note='arithmetic of the fillOutput adaptations over regenerated constants; HC destSize via correspondence only so far',
  ),
 }
